@@ -158,6 +158,11 @@ def r1(ctx):
     ctx.floor(n, 4, "row emission sites", LSR)
 
 
+class _Tok(str):
+    """the text a stand-in serialiser returned: Python's string methods return plain `str`, so the type survives only if the
+    analysed code hands the text on untouched"""
+
+
 def r2(ctx):
     """escaping: who produces the value text of each format"""
     # HTML: the cell text passes through an escaper covering & < >
@@ -250,7 +255,7 @@ def r2(ctx):
             callee = str(node.get("callee", ""))
             if "serde_json" in callee and ("to_string" in callee or "to_vec" in callee or "to_writer" in callee):
                 m_ = [a_ for a_ in args if isinstance(a_, interp.HMap)]
-                tok = "<json of %s: \u00e9\U0001F600>" % (sorted(m_[0].items()) if m_ else "?")
+                tok = _Tok("<json of %s: \u00e9\U0001F600>" % (sorted(m_[0].items()) if m_ else "?"))
                 seen.append(tok)
                 return (interp.V("Result::Ok", [tok]),)
             return None
@@ -259,7 +264,7 @@ def r2(ctx):
             for i, (k_, v_) in enumerate(row):
                 fe_ = ctx.anchor_hir(FMT["json"] + "::format_element")
                 ps_ = ctx.prog.fns[FMT["json"] + "::format_element"]["params"]
-                r_ = interp.Interp(call=call, prog=ctx.prog).run(fe_, dict(zip([p_["id"] for p_ in ps_], [selfv, k_, v_, i == len(row) - 1])))
+                r_ = interp.Interp(call=call, prog=ctx.prog).run(fe_, {pk_: x_ for pk_, x_ in zip([p_.get("id") for p_ in ps_], [selfv, k_, v_, i == len(row) - 1]) if pk_ is not None})
                 if r_ != interp.NONE:
                     out.append(("cell", r_))
             re_ = ctx.anchor_hir(FMT["json"] + "::row_ended")
@@ -270,6 +275,11 @@ def r2(ctx):
         out, seen, selfv = json_rows()
         want = [("row", interp.some("<json of %s: \u00e9\U0001F600>" % sorted(r_))) for r_ in ([("name", "a\u00e9"), ("size", "1")], [("name", "b\U00020BB7")])]
         ok = out == want and len(selfv["file_map"]) == 0
+        # ... the very text serde_json returned: any string operation applied to it (replace, trim, a re-escaping pass) yields a
+        # new string and is reported even when it happens to leave this token as it is
+        if ok and not all(isinstance(r_[1].args[0], _Tok) for r_ in out):
+            ok = False
+            out = "the serialised text after further string operations"
         why = "two rows (name, size) / (name) with non-ASCII values come out as %s" % (out,)
     except interp.Undecided as e:
         ok, why = False, "cannot evaluate the JSON formatter: %s" % e
@@ -277,16 +287,65 @@ def r2(ctx):
     if not ok:
         ctx.violation("escape/json", ctx.where(FMT["json"] + "::row_ended"),
                       "a JSON row must be the serde_json serialisation of the (name -> value) map of that row, handed on unchanged, and the map must be empty for the next row; %s" % why)
-    # CSV: csv::Writer::write_record of the row's values
-    h = ctx.anchor_hir(FMT["csv"] + "::row_ended")
-    ok = any(c["k"] == "MCall" and c["m"] == "write_record" and "self.records" in render(c["args"][0]) for c in walk_exprs(h)) and \
-        any(c["k"] == "MCall" and c["m"] == "clear" for c in walk_exprs(h))
-    h2 = ctx.anchor_hir(FMT["csv"] + "::format_element")
-    ps = [c for c in walk_exprs(h2) if c["k"] == "MCall" and c["m"] == "push"]
-    ok = ok and len(ps) == 1 and render(ps[0]["args"][0]).startswith("record")
+    # CSV: the cells of a row are collected in order and the row's text is what csv::Writer::write_record makes of them,
+    # handed on unchanged; the list is empty again for the next row.  Evaluated like the JSON formatter
+    def csv_rows():
+        selfv = interp.LazySelf({"records": []})
+        bufs = []
+
+        def call(node, recv, args, it, env):
+            callee = str(node.get("callee", ""))
+            m_ = node.get("m")
+            if callee.endswith("WritableBuffer::new") or callee.endswith("WritableBuffer::default"):
+                b_ = {"__wb": []}
+                bufs.append(b_)
+                return (b_,)
+            if "csv::" in callee and "WriterBuilder" in callee and "from_writer" not in callee:
+                if callee.rsplit("::", 1)[-1] not in ("new", "default", "buffer_capacity"):
+                    raise interp.Undecided("the csv writer is configured with %s: a dialect setting (delimiter, quoting, terminator) decides whether the output is RFC 4180" % callee.rsplit("::", 1)[-1])
+                return ({"__csvbuilder": True},)         # WriterBuilder::new() with the default dialect
+            if "csv::" in callee and ("from_writer" in callee) and args:
+                w_ = [a_ for a_ in args if isinstance(a_, dict) and "__wb" in a_]
+                return ({"__csvw": w_[0] if w_ else None},)
+            if isinstance(recv, dict) and "__csvw" in recv and m_ in ("write_record", "serialize"):
+                recs = [a_ for a_ in args if isinstance(a_, list)]
+                if recv["__csvw"] is not None:
+                    recv["__csvw"]["__wb"].append(_Tok("<csv of %s: \u00e9\U0001F600>" % (list(recs[0]) if recs else "?")))
+                return (interp.V("Result::Ok", [()]),)
+            if isinstance(recv, dict) and "__csvw" in recv and m_ == "flush":
+                return (interp.V("Result::Ok", [()]),)
+            wb = [a_ for a_ in ([recv] + list(args)) if isinstance(a_, dict) and "__wb" in a_]
+            if wb and (m_ in ("into", "to_string") or callee.endswith("::from") or callee.endswith("::into")):
+                parts = wb[0]["__wb"]
+                return (parts[0] if len(parts) == 1 else "".join(parts),)
+            return None
+        out = []
+        for row in (["a\u00e9", "1"], ["b\U00020BB7"]):
+            for i, v_ in enumerate(row):
+                nm = FMT["csv"] + "::format_element"
+                ps_ = ctx.prog.fns[nm]["params"]
+                r_ = interp.Interp(call=call, prog=ctx.prog).run(ctx.anchor_hir(nm), {k_: x_ for k_, x_ in zip([p_.get("id") for p_ in ps_], [selfv, "col%d" % i, v_, i == len(row) - 1]) if k_ is not None})
+                if r_ != interp.NONE:
+                    out.append(("cell", r_))
+            nm = FMT["csv"] + "::row_ended"
+            ps_ = ctx.prog.fns[nm]["params"]
+            r_ = interp.Interp(call=call, prog=ctx.prog).run(ctx.anchor_hir(nm), {ps_[0]["id"]: selfv})
+            if isinstance(r_, interp.V) and r_.name == "Option::Some" and isinstance(r_.args[0], dict) and "__wb" in r_.args[0]:
+                parts = r_.args[0]["__wb"]          # the buffer converted to its text (`.into()`; the conversion itself is X-WBUF's)
+                r_ = interp.some(parts[0] if len(parts) == 1 else "".join(parts))
+            out.append(("row", r_))
+        return out, selfv
+    try:
+        out, selfv = csv_rows()
+        want = [("row", interp.some("<csv of %s: \u00e9\U0001F600>" % r_)) for r_ in (["a\u00e9", "1"], ["b\U00020BB7"])]
+        ok = out == want and len(selfv["records"]) == 0 and all(isinstance(r_[1].args[0], _Tok) for r_ in out)
+        why = "two rows (a, 1) / (b) with non-ASCII values come out as %s" % (out,)
+    except interp.Undecided as e:
+        ok, why = False, "cannot evaluate the CSV formatter: %s" % e
     ctx.obligation(ok)
     if not ok:
-        ctx.violation("escape/csv", ctx.where(FMT["csv"] + "::row_ended"), "a CSV row must be written by csv::Writer::write_record over the row's values, cleared afterwards")
+        ctx.violation("escape/csv", ctx.where(FMT["csv"] + "::row_ended"),
+                      "a CSV row must be what csv::Writer::write_record makes of the row's values in order, handed on unchanged, and the list must be empty for the next row; %s" % why)
     ctx.covered("value producers of JSON and CSV rows", 2, distinct_keys=["json", "csv"])
 
 
